@@ -317,7 +317,7 @@ def new_uid(tag=''):
     return 'U%07d%05d' % (os.getpid() % 10 ** 7, next(_uid) % 10 ** 5)      # fixed width: frame lengths do not depend on it
 
 
-PAYLOADS = ['registered0', 'registered1', 'registered2', 'unregistered', 'non-hl7', 'broken-header']
+PAYLOADS = ['registered0', 'registered1', 'registered2', 'unregistered', 'non-hl7', 'broken-header', 'type-err', 'blank-line']
 
 
 def materialise(spec):
@@ -337,13 +337,20 @@ def make_client(kind, cuts=(), final_cr=True, fault=None, extra=(), nonascii=Fal
         text = make_message(TYPES[int(kind[-1])], uid, extra)
     elif kind == 'unregistered':
         text = make_message('ADT^A02^ADT_A02', uid, extra)
+    elif kind == 'type-err':
+        text = make_message('ERR', uid, extra)              # a message type spelled like the key of the error handler: not registered
+    elif kind == 'blank-line':
+        # an empty line inside the frame and one at its end (what to_er7() of a message holding an empty group looks like)
+        lines = make_message(TYPES[0], uid, extra).split('\r')
+        text = '\r'.join(lines[:1] + [''] + lines[1:]) + '\r'
     elif kind == 'non-hl7':
         text = 'INVALID MESSAGE %s' % uid
     else:
         text = 'MSH|^~\\&#|%s' % uid          # five delimiters, no MSH-12: not a parsable header
     if nonascii:
         text += '\rNTE|1||café 中'
-    return {'kind': kind if kind != 'broken-header' else 'non-hl7', 'text': text, 'uid': uid, 'cuts': list(cuts), 'final_cr': final_cr,
+    kind = {'broken-header': 'non-hl7', 'type-err': 'unregistered', 'blank-line': 'registered0'}.get(kind, kind)
+    return {'kind': kind, 'text': text, 'uid': uid, 'cuts': list(cuts), 'final_cr': final_cr,
             'fault': fault}
 
 
